@@ -80,6 +80,13 @@ func genValue(rng *core.Rng, oid uint32) any {
 			return rng.Bytes(1 + rng.Intn(3000))
 		}
 		return rng.Bytes(1 + rng.Intn(24))
+	case pg.OIDBit, pg.OIDVarbit:
+		n := core.Pick(rng, []int{0, 1, 7, 8, 9, 15, 16, 17, 24, 32, 64, 1 + rng.Intn(70)})
+		d := make([]byte, n)
+		for i := range d {
+			d[i] = '0' + byte(rng.Intn(2))
+		}
+		return pg.BitString(d)
 	case pg.OIDUUID:
 		var u [16]byte
 		if !edge {
